@@ -204,6 +204,11 @@ int cp_vbnn_ver(const ec_t r, const bn_t z, const bn_t h, const uint8_t *id,
 	ec_null(Z);
 	ec_null(t);
 
+	/* The commitment cannot be the identity; its encoding sizes the buffer. */
+	if (ec_is_infty(r)) {
+		return 0;
+	}
+
 	RLC_TRY {
 		bn_new(n);
 		bn_new(c);
@@ -256,7 +261,9 @@ int cp_vbnn_ver(const ec_t r, const bn_t z, const bn_t h, const uint8_t *id,
 		bn_mod(_h, _h, n);
 		RLC_FREE(buf);
 
-		if (bn_cmp(h, _h) == RLC_EQ) {
+		/* The response must be in the range [0, n - 1] as well. */
+		if (bn_cmp(h, _h) == RLC_EQ && bn_sign(z) == RLC_POS &&
+				bn_cmp(z, n) == RLC_LT) {
 			result = 1;
 		} else {
 			result = 0;
